@@ -578,6 +578,10 @@ class UTPM(Ring, RawAlgorithmsMixIn):
             self.data[...] = retval.data[...]
         return self
 
+    def __ipow__(self, r):
+        self.data[...] = (self ** r).data
+        return self
+
     __div__ = __truediv__
     __idiv__ = __itruediv__
     __rdiv__ = __rtruediv__
